@@ -225,6 +225,7 @@ Definition octet_names_ok (e : string * string * string) : bool :=
   Bool.eqb (String.eqb s "reverseOctetTotalCount") (String.eqb b "reverseOctetTotalCountFromDestinationNode").
 
 Definition wf_config (c : agg_config) : bool :=
+  negb (mem "sourcePodName" (added_names c)) && negb (mem "destinationPodName" (added_names c)) &&
   negb (c_nil c) &&
   Nat.eqb (List.length (c_stats c)) (List.length (c_src_stats c)) &&
   Nat.eqb (List.length (c_stats c)) (List.length (c_dst_stats c)) &&
